@@ -339,6 +339,12 @@ func (x *Engine) indexAddr(fr *Frame, st *State, i *ssa.IndexAddr) Val {
 		arr := u.Elem().Underlying().(*types.Array)
 		x.nilCheck(fr, st, b, "array", i.Pos())
 		x.mayPanic(fr, st, fmt.Sprintf("(or (< %s 0) (>= %s %d))", idx.T, idx.T, arr.Len()), "index@"+pos)
+		if b.Addr != nil && b.Addr.Kind == "field" {
+			// element of an array stored inline in a struct field: F[obj][idx]
+			if _, ok := structOf(arr.Elem()); !ok {
+				return Val{T: "(faddr 3)", Typ: i.Type(), Addr: &Addr{Kind: "elem", Key: b.Addr.Key, Ref: b.Addr.Ref, Idx: idx.T}, Fresh: b.Fresh}
+			}
+		}
 		if _, ok := structOf(arr.Elem()); ok {
 			return Val{T: x.name("er", "Int", x.elemRef(b.T, idx.T)), Typ: i.Type()}
 		}
